@@ -85,11 +85,11 @@ def _users(p, ci, name, fn0):
     return sorted(out, key=lambda K: K is not ci)
 
 
-def _views_by_receiver(ctx, ci, name, fn0):
-    """[(view, [classes sharing it])] of method fn0 over the classes that use it: one entry unless a hook it calls is
-    overridden below ci."""
+def _views_by_receiver(ctx, ci, name, fn0, classes=None):
+    """[(view, [classes sharing it])] of method fn0 over the classes that use it (or `classes`): one entry unless a hook it
+    calls is overridden below ci."""
     groups: list = []
-    for K in _users(ctx.p, ci, name, fn0):
+    for K in (classes if classes is not None else _users(ctx.p, ci, name, fn0)):
         v = _view(ctx, fn0, K)
         for g in groups:
             if g[0] is v:
@@ -858,6 +858,71 @@ def _selected_sources(p, fn, pred):
     return out
 
 
+def _base_override(p, fn, call, K):
+    """The mask_by_extent override that `super().mask_by_extent(..)` / `Base.mask_by_extent(self, ..)` inside `fn` reaches when
+    the object is a K, or None."""
+    f = call.func
+    if not isinstance(f, ast.Attribute) or fn.cls is None:
+        return None
+    mro = [c for c in K.mro if not isinstance(c, str)]
+    if isinstance(f.value, ast.Call) and call_name(f.value) == "super":
+        if fn.cls in mro:
+            for c in mro[mro.index(fn.cls) + 1:]:
+                o = c.own(f.attr)
+                if o is not None:
+                    return o[1] if o[0] == "method" else None
+        return None
+    if isinstance(f.value, ast.Name):
+        r = p.resolve_name(fn.module, f.value.id)
+        if r and r[0] == "class":
+            m = r[1].lookup(f.attr)
+            return m[2] if m and m[1] == "method" else None
+    return None
+
+
+def _delegations(ctx, fn, K, pred):
+    """The base-class overrides the view `fn` (of an override, for receiver K) obtains its mask from."""
+    p = ctx.p
+    out = []
+    for c in ast.walk(fn.node):
+        if _mask_source(p, fn, c, pred) is not None and not _is_call_to(p, fn.module, c, pred):
+            t = _base_override(p, fn, c, K)
+            if t is not None and t not in out:
+                out.append(t)
+    return out
+
+
+def _reaching(ctx, ci, fn0, pred):
+    """The classes whose mask_by_extent executes the body of fn0 with the object itself: those on which the name resolves to
+    fn0, and those whose own override hands over to it through super() / an explicit base-class call (transitively)."""
+    key = ("c13-reach", id(fn0))
+    if key in ctx.cache:
+        return ctx.cache[key]
+    p = ctx.p
+    out = list(_users(p, ci, "mask_by_extent", fn0))
+    ctx.cache[key] = out
+    for c2, fn2, _v in list(_overrides(ctx)):
+        if fn2 is fn0 or ci not in c2.mro:
+            continue
+        for K2 in _reaching(ctx, c2, fn2, pred):
+            if K2 not in out and fn0 in _delegations(ctx, _view(ctx, fn2, K2), K2, pred):
+                out.append(K2)
+    return out
+
+
+def _selected_for(ctx, fn0, K, pred, _depth=0):
+    """Attributes the selected coordinates come from when K uses override fn0: read off the predicate call in the override, or
+    in the base-class override it obtains its mask from.  None when neither is found."""
+    v = _view(ctx, fn0, K)
+    got = _selected_sources(ctx.p, v, pred)
+    if got is None and _depth < 4:
+        for base in _delegations(ctx, v, K, pred):
+            sub = _selected_for(ctx, base, K, pred, _depth + 1)
+            if sub is not None:
+                got = (got or set()) | sub
+    return got
+
+
 def _overrides(ctx):
     """(class, FuncInfo, normalised view) of every mask_by_extent override that has a body."""
     for ci in ctx.p.classes:
@@ -887,7 +952,8 @@ def rule_bbox(ctx) -> RuleResult:
     bi = p.module("shared/utils.py").functions.get("box_intersect")
     if pred is None or bi is None:
         raise AnalysisError("anchors shared.utils.mask_by_extent / box_intersect not found")
-    for ci, fn0, fn, receivers in ((ci, fn0, v, Ks) for ci, fn0, _v in _overrides(ctx) for v, Ks in _views_by_receiver(ctx, ci, "mask_by_extent", fn0)):
+    for ci, fn0, fn, receivers in ((ci, fn0, v, Ks) for ci, fn0, _v in _overrides(ctx)
+                                  for v, Ks in _views_by_receiver(ctx, ci, "mask_by_extent", fn0, _reaching(ctx, ci, fn0, pred))):
         sn = fn.self_name or "self"
         guards = [c for c in ast.walk(fn.node) if _is_call_to(p, fn.module, c, bi)
                   and any("extent" in provenance(fn.node, [a], sn) for a in list(c.args) + [k.value for k in c.keywords])]
@@ -1002,17 +1068,16 @@ def rule_agree(ctx) -> RuleResult:
     )
     p = ctx.p
     pred = _predicate(p)
-    per_view = {}  # id(view) -> attributes the coordinates handed to the predicate come from
-    owners = {}
-    for ci, fn0, _v in _overrides(ctx):
-        owners[id(fn0)] = ci
-        for v, _Ks in _views_by_receiver(ctx, ci, "mask_by_extent", fn0):
-            per_view[id(v)] = _selected_sources(p, v, pred)
-    locations = set().union(*[s for s in per_view.values() if s])  # what the package selects on at all (vertices, centroids, ...)
+    owners = {id(fn0): ci for ci, fn0, _v in _overrides(ctx)}
 
     def selected_on(K, mbe):
-        return per_view.get(id(_view(ctx, mbe, K))) if id(mbe) in owners else None
+        return _selected_for(ctx, mbe, K, pred) if id(mbe) in owners else None
 
+    # what the package selects on at all (vertices, centroids, ...)
+    locations = set()
+    for ci, fn0, _v in _overrides(ctx):
+        for K in _users(p, ci, "mask_by_extent", fn0):
+            locations |= selected_on(K, fn0) or set()
     done = set()
     for K in p.classes:
         if K.synthetic:
@@ -1044,7 +1109,7 @@ def rule_agree(ctx) -> RuleResult:
         if not handed:
             continue
         masked = _masked_attributes(ctx, K, cp) & locations
-        ok = not masked or bool(masked & selected)
+        ok = masked <= selected  # every coordinate array indexed with the mask has one row per mask entry
         res.inst(f"{K.name}: mask over {sorted(selected)} ({mbe.qualname}) applied to {sorted(masked) or 'no coordinates'} ({cp.qualname})", nontrivial=True, ok=ok)
         if not ok:
             res.find(mbe.cls.name, "mask_by_extent", "selection mask is computed on other coordinates than copy(mask=...) sub-samples",
